@@ -269,6 +269,16 @@ pub fn run(tier: Tier) -> Run {
         }
         run.outcome("misaligned_parses", g.insts.len() as u64 * 6);
     }
+    // ---- re-entrancy: a consumer that runs a complete second parse from inside a callback of the first (every ordered pair
+    //      of 12 small binaries x 7 callback positions): both parses give what they give alone
+    {
+        let (n, bad) = crate::util::nested_parse_sweep();
+        run.outcome("nested_parses", n);
+        for (why, rep) in bad.into_iter().take(3) {
+            let class = why.split(':').next().unwrap_or("").to_string();
+            run.add(viol(format!("C02:nested-parse:{}", class), why, rep));
+        }
+    }
     let mut oc: BTreeMap<String, u64> = BTreeMap::new();
     for (v, o) in res {
         run.add_all(v);
